@@ -77,6 +77,17 @@ def tasks(tier):
                    abort=True, abort_mode=mode, abort_kind="eventlike",
                    sleeper="call" if "deco" not in e else "policy", max_unknown=None)
         out.append({"family": "abort-eventlike-predicate", "cfg": cfg, "entry": e, "bound": 1})
+    # abort_if is a function with an optional parameter of its own: it is called without arguments
+    for mode, e in itertools.product(["answer", "flag"], Q4 + POL[:2] + ["RetryPolicy.call", "deco", "adeco"]):
+        cfg = dict(M=M, alphabet=["ok", "x:T", "r:T"], abort=True, abort_mode=mode, abort_kind="optarg",
+                   sleeper="call" if "deco" not in e else "policy", max_unknown=None)
+        out.append({"family": "abort-optional-parameter", "cfg": cfg, "entry": e, "bound": 1})
+    # abort_if itself raises an ordinary exception at one poll: whatever becomes of that, the
+    # predicate keeps being consulted before every later attempt and sleep
+    for idx, e in itertools.product([0, 1, 2], Q4 + POL[:2]):
+        cfg = dict(M=4, alphabet=["ok", "x:T", "r:T"], abort=True, faults=[("abort_if", idx, "RuntimeError")],
+                   sleeper="call", max_unknown=None)
+        out.append({"family": "abort-predicate-fault", "cfg": cfg, "entry": e, "bound": 1})
     # a long-lived context object whose abort_if (and sleeper) are assigned after .context()
     for mode, e in itertools.product(["answer", "flag"], ["Policy.contextset", "Retry.contextset", "RetryPolicy.contextset",
                                                            "AsyncPolicy.contextset", "AsyncRetry.contextset"]):
